@@ -3,7 +3,8 @@ import concurrent.futures, glob, os, re, shutil, subprocess, tempfile
 import vlib
 
 PROP = "C11"
-CFGS = ["fluent", "nested", "oneline", "ini", "brokenfirst", "fullfirst", "twofiles", "stderrfirst"]
+CFGS = ["fluent", "nested", "oneline", "ini", "brokenfirst", "fullfirst", "twofiles", "stderrfirst", "filtered", "dupfatal"]
+SLOW_CFG = "slowother"      # 1.7 s per child: run on a small set of histories only
 SINKS = ["file", "rotbig", "rot1", "rot2", "rotdaily"]
 THREADS = ["main", "sec"]
 TYPES = ["debug", "warning", "info"]
@@ -65,25 +66,36 @@ def one(exe, root, case):
             res["engine"] = "child did not die by SIGABRT (rc=%d) %s" % (r.returncode, r.stderr[-300:].decode("utf-8", "replace"))
             return res
         n = len(lens) - 1
-        expect = [rec_text(i, lens[i], False) for i in range(n)] + [rec_text(0, lens[-1], True)]
+        pre = [rec_text(i, lens[i], False) for i in range(n)]
+        fatal = rec_text(0, lens[-1], True)
         res["missing"] = []
         res["files"] = 0
         res["bytes"] = 0
-        for base in (["app", "second"] if cfg == "twofiles" else ["app"]):
+        bases = {"twofiles": ["app", "second"], "filtered": ["app", "trace"]}.get(cfg, ["app"])
+        for base in bases:
             text, nfiles = read_all(d, base)
+            # what this file must hold, in order; `exact` = the number of lines it must have (None: at least these)
+            if base == "trace":
+                expect, exact = pre, n                          # the filter keeps the fatal message out of this file, not the records before it
+            elif cfg == "dupfatal":
+                expect, exact = pre + [fatal], None             # the warning with the fatal text is there; the fatal line itself may be dropped as a duplicate
+            elif cfg == SLOW_CFG:
+                expect, exact = [b"slow:handler"] + pre + [fatal], n + 2
+            else:
+                expect, exact = pre + [fatal], n + 1
             pos, missing = 0, []
             for i, e in enumerate(expect):
                 k = text.find(e + b"\n", pos) if cfg != "oneline" else text.find(e, pos)
                 if k < 0:
-                    missing.append(("the fatal message" if i == n else "message %d" % i) + (" (in %s.log)" % base if base != "app" else ""))
+                    missing.append(("the fatal message" if e == fatal else "message %r" % e[:12].decode()) + (" (in %s.log)" % base if base != "app" else ""))
                 else:
                     pos = k + len(e)
             lines = text.count(b"\n")
             res["missing"] += missing
             res["files"] += nfiles
             res["bytes"] += len(text)
-            if not missing and lines != n + 1:
-                res["missing"].append("(line count %d != %d in %s.log: duplicated or split records)" % (lines, n + 1, base))
+            if not missing and exact is not None and lines != exact:
+                res["missing"].append("(line count %d != %d in %s.log: duplicated or split records)" % (lines, exact, base))
         return res
     finally:
         shutil.rmtree(d, ignore_errors=True)
@@ -95,6 +107,7 @@ def run(tier):
     hs = histories(tier)
     cases = [(c, s, th, h) for c in CFGS for s in SINKS for th in THREADS for h in hs
              if not (len(h) > 1 and max(h) > 1000 and (c not in ("fluent", "oneline") or s in ("rot2", "rotdaily")))]   # the big-record family on a reduced product
+    cases += [(SLOW_CFG, s, th, h) for s in SINKS for th in THREADS for h in ((8,), (8, 9), (16385, 8))]
     root = tempfile.mkdtemp(prefix="verif-c11-", dir="/dev/shm")
     try:
         with concurrent.futures.ThreadPoolExecutor(max_workers=vlib.NCPU) as ex:
@@ -119,7 +132,8 @@ def run(tier):
     multi = len([r for r in results if r["files"] > 1])
     cov = {
         "evaluations": len(results), "distinct_nontrivial": len(set((r["case"]["cfg"], r["case"]["sink"], r["case"]["thread"], len(r["case"]["lens"]) > 1, max(r["case"]["lens"]) > 16000) for r in results)),
-        "rule": "full product {fluent, nested sub-pipeline, one-line configure(), INI, an earlier file sink that cannot open its file, an earlier file sink on /dev/full (every flush fails), two healthy file sinks, stderr sink first} x "
+        "rule": "full product {fluent, nested sub-pipeline, one-line configure(), INI, an earlier file sink that cannot open its file, an earlier file sink on /dev/full (every flush fails), two healthy file sinks, stderr sink first, a sub-pipeline with its own file behind a filter that rejects the fatal message, "
+                "a duplicate filter with the fatal message repeating the previous text, another thread inside a 1.5 s handler when the fatal message is raised} x "
                 "{FileSink, RotatingFileSink with huge limit, 1-byte limit (every record incl. the fatal one rotates), 40-byte limit (a few records per file), daily} x {main thread, secondary thread} x "
                 "every sequence of 0..K preceding records with lengths from a contiguous small set x every fatal-record length from that set (so that record, file and fatal sizes coincide in every way), plus a "
                 "family around QFile's 16 KiB write buffer; each case is one child process that logs through Qt's macros and ends in qFatal; "
